@@ -1,9 +1,9 @@
 (* C18: distances, gradients and wrapping of variable values form a consistent metric.
    Statements only (proofs in ValueProofs.v); all over the real-number instance of the model. *)
-From Coq Require Import ZArith List Bool Reals Lra Lia.
+From Coq Require Import ZArith List Bool Reals Lra Lia Permutation.
 From Coquelicot Require Import Coquelicot.
 From Flocq Require Import Core.Raux.
-From CV Require Import Base.Num Base.RNum C18.ValueModel C18.ValueProofs C18.GradProofs C18.ExtraProofs C18.Round3Proofs.
+From CV Require Import Base.Num Base.RNum C18.ValueModel C18.ValueProofs C18.GradProofs C18.ExtraProofs C18.Round3Proofs C18.SumProofs.
 Import ListNotations.
 Local Open Scope R_scope.
 
@@ -470,4 +470,48 @@ Proof.
   assert (F : forall s : R, 0 <= s < 1 / 2 -> IZR (Zfloor (s + 1 / 2)) <> s + 1 / 2).
   { intros s Hs. assert (Zfloor (s + 1 / 2) = 0%Z) as -> by (apply Zfloor_imp; simpl; lra). simpl. lra. }
   repeat split; apply F; lra.
+Qed.
+
+(* =====================================================================================================
+   colvar::init(): when is a variable made of several components periodic?  (sum_periodic mirrors the code's loops: linear,
+   homogeneous, then the loop over components 1.. that clears the flag and resets the period)
+   ===================================================================================================== *)
+(* for component lists of ANY length: the variable is flagged periodic, with period P and wrapping centre c, exactly when the
+   list is not empty, c is the centre of the first component (creation order), and EVERY component is periodic with period P,
+   exponent 1 and coefficient +-1 (sc_ok) *)
+Theorem C18_sum_periodic_iff_all_components : forall (l : list scomp) (P c : R),
+  sum_periodic Rops l = Some (P, c) <-> (exists k0 r, l = k0 :: r /\ c = sc_wc k0) /\ List.Forall (sc_ok P) l.
+Proof. exact sum_periodic_iff. Qed.
+Print Assumptions C18_sum_periodic_iff_all_components.
+(* ... hence the decision (and the period) does not depend on the order in which the components are created *)
+Theorem C18_sum_periodic_order_independent : forall l l' : list scomp, Permutation l l' ->
+  option_map fst (sum_periodic Rops l) = option_map fst (sum_periodic Rops l').
+Proof. exact sum_periodic_period_perm. Qed.
+Print Assumptions C18_sum_periodic_order_independent.
+(* ... and a variable that is not periodic has the plain metric (distance zero only for equal values, wrap = identity), a
+   periodic one the periodic metric of the common period around the first component's centre *)
+Theorem C18_sum_metric_follows_decision : forall (l : list scomp) (x y : R),
+  (sum_periodic Rops l = None ->
+     sum_kind Rops l = KScalar /\ (comp_dist2 Rops PI (sum_kind Rops l) (VS x) (VS y) = Some 0 <-> x = y) /\
+     comp_wrap Rops (sum_kind Rops l) (VS x) = VS x) /\
+  (forall P c, sum_periodic Rops l = Some (P, c) -> sum_kind Rops l = KPeriodic P c).
+Proof. exact sum_kind_metric. Qed.
+Print Assumptions C18_sum_metric_follows_decision.
+(* dihedral + distance + polarPhi (periodic, not periodic, periodic) is NOT periodic; three periodic components of period 360 are *)
+Example C18_example_sum3 :
+  let dih := {| sc_per := true; sc_P := 360; sc_wc := 0; sc_coeff := 1; sc_exp := 1; sc_rank := 1 |} in
+  let dst := {| sc_per := false; sc_P := 0; sc_wc := 0; sc_coeff := 1; sc_exp := 1; sc_rank := 2 |} in
+  let phi := {| sc_per := true; sc_P := 360; sc_wc := 0; sc_coeff := -1; sc_exp := 1; sc_rank := 5 |} in
+  sum_periodic Rops [dih; dst; phi] = None /\ List.Forall (sc_ok 360) [dih; phi; phi].
+Proof.
+  cbv zeta. split.
+  - match goal with |- ?t = None => destruct t as [[P c]|] eqn:E; [|reflexivity] end.
+    apply sum_periodic_iff in E. destruct E as [_ HF].
+    inversion HF as [|? ? _ HF1]; subst. inversion HF1 as [|? ? [Hper _] _]; subst. cbn in Hper. discriminate.
+  - assert (Ht : 0 <= tol10 Rops) by (unfold tol10; cbn; apply Rlt_le, Rdiv_lt_0_compat; lra).
+    assert (Hk : forall k : scomp, sc_per k = true -> sc_P k = 360 -> sc_exp k = 1%Z -> Rabs (sc_coeff k) = 1 -> sc_ok 360 k).
+    { intros k H1 H2 H3 H4. unfold sc_ok. rewrite H4. replace (1 - 1) with 0 by ring. rewrite Rabs_R0. auto. }
+    apply Forall_cons; [apply Hk; cbn; auto; apply Rabs_R1|].
+    apply Forall_cons; [apply Hk; cbn; auto; unfold Rabs; destruct (Rcase_abs (-1)); lra|].
+    apply Forall_cons; [apply Hk; cbn; auto; unfold Rabs; destruct (Rcase_abs (-1)); lra|]. apply Forall_nil.
 Qed.
